@@ -579,6 +579,11 @@ for kind, r in zip(UKINDS, run_parallel(UKINDS, udp_session_stalled, workers=3))
     evals += 1
     if isinstance(r, tuple) or 'error' in r:
         machinery(f'stalled UDP session via {kind}: {r}')
+    if not (isinstance(r, tuple) or 'error' in r) and r['unsent_bytes_queued_for_the_stalled_client'] < 50_000:
+        # the flood did not pile up behind the client that stopped reading (datagrams are droppable): once more, alone
+        r = udp_session_stalled(kind)
+        if isinstance(r, tuple) or 'error' in r:
+            machinery(f'stalled UDP session via {kind} (second try): {r}')
     if r['unsent_bytes_queued_for_the_stalled_client'] < 50_000:
         machinery(f'stalled UDP session via {kind}: the client that stopped reading has only {r["unsent_bytes_queued_for_the_stalled_client"]} bytes queued - the scenario did not build up')
     lost = [x for x in r['other_session_round_trips'] if x is None]
